@@ -252,6 +252,18 @@ def run(out):
     work.append(('builtin-snippet-keys-markup', 'markup', mk + [k + '>' + k for k in mk[::7]]))
     work.append(('builtin-snippet-keys-css', 'css', ck))
     out.parts.append({'instance': 'builtin-snippet-keys', 'markup_keys': len(mk), 'stylesheet_keys': len(ck)})
+    # deep structures (the grammar has no depth limit): element chains, groups and groups of chains, below and above what the
+    # recursive implementation can take (known finding F45)
+    deep = []
+    for n in (20, 100, 230, 270, 400):
+        deep.append('>'.join(['a'] * n))
+    for n in (100, 450, 520):
+        deep.append('(' * n + 'a' + ')' * n)
+    deep.append('(a>' * 130 + 'a' + ')' * 130)
+    deep.append('p{' + '{' * 400 + '}' * 400 + '}')
+    deep.append('a' + '[b]' * 300 + '.c' * 300)
+    deep.append('a>b' + '^' * 500 + 'c')
+    work.append(('deep-structures', 'markup', deep))
     tid = 0
     alltraces = []
     for name, lang, strings in work:
@@ -285,9 +297,13 @@ def run(out):
         if v[0] == 'REJECT':
             t = by[k]
             c = t['calls'][v[1] - 1]
-            out.violation('outcome: ' + v[2], {'input': t['src'], 'language': t['lang'], 'configuration': c['cfg'], 'kind': c['kind'],
+            src = t['src']
+            depth = max(src.count('>'), src.count('('))          # nesting the input asks for (every '>' / '(' opens a level unless a '^' / ')' leaves one)
+            out.violation('outcome: ' + v[2], {'input': src if len(src) <= 300 else src[:120] + ' ... (%d characters)' % len(src),
+                                               'language': t['lang'], 'configuration': c['cfg'], 'kind': c['kind'],
                                                'pos': c['pos'], 'exception': c.get('exception'), 'site': list(c['site']) if c.get('site') else None,
-                                               'message': c.get('message'), 'instance': t['inst']})
+                                               'message': c.get('message'), 'instance': t['inst'],
+                                               'flags': {'nesting_over_200': depth > 200}})
 
 
 def replay(case):
